@@ -3177,6 +3177,30 @@ func (opts *Options) noSeparatorLine() bool {
 
 // This function can have side-effects and alter some global states.
 // So we run it on fzf.Run and not on ParseOptions.
+// Re-organize actions so that we put actions that change the preview window first in the list.
+//   - change-preview-window(up,+10)+preview(sleep 3; cat {})+change-preview-window(up,+20)
+//     -> change-preview-window(up,+10)+change-preview-window(up,+20)+preview(sleep 3; cat {})
+func previewWindowActionsFirst(actions []*action) []*action {
+	reordered := []*action{}
+	for _, act := range actions {
+		switch act.t {
+		case actTogglePreview, actShowPreview, actHidePreview, actChangePreviewWindow:
+			reordered = append(reordered, act)
+		}
+	}
+	if len(reordered) == 0 {
+		return actions
+	}
+	for _, act := range actions {
+		switch act.t {
+		case actTogglePreview, actShowPreview, actHidePreview, actChangePreviewWindow:
+		default:
+			reordered = append(reordered, act)
+		}
+	}
+	return reordered
+}
+
 func postProcessOptions(opts *Options) error {
 	if opts.Ambidouble {
 		uniseg.EastAsianAmbiguousWidth = 2
@@ -3281,31 +3305,14 @@ func postProcessOptions(opts *Options) error {
 	// Extend the default key map
 	keymap := defaultKeymap()
 	for key, actions := range opts.Keymap {
-		reordered := []*action{}
 		for _, act := range actions {
-			switch act.t {
-			case actToggleSort:
+			if act.t == actToggleSort {
 				// To display "+S"/"-S" on info line
 				opts.ToggleSort = true
-			case actTogglePreview, actShowPreview, actHidePreview, actChangePreviewWindow:
-				reordered = append(reordered, act)
 			}
 		}
 
-		// Re-organize actions so that we put actions that change the preview window first in the list.
-		//  *  change-preview-window(up,+10)+preview(sleep 3; cat {})+change-preview-window(up,+20)
-		//  -> change-preview-window(up,+10)+change-preview-window(up,+20)+preview(sleep 3; cat {})
-		if len(reordered) > 0 {
-			for _, act := range actions {
-				switch act.t {
-				case actTogglePreview, actShowPreview, actHidePreview, actChangePreviewWindow:
-				default:
-					reordered = append(reordered, act)
-				}
-			}
-			actions = reordered
-		}
-		keymap[key] = actions
+		keymap[key] = previewWindowActionsFirst(actions)
 	}
 	opts.Keymap = keymap
 
